@@ -26,10 +26,11 @@ ASSUMPTIONS = [
 ]
 RULE = ('every implementation run is judged twice - by the Coq model (correspondence) and by the statement-level oracle (search): `evaluations` counts both judgements, `distinct_nontrivial` counts each distinct run once. ' 'real os.fork() scenarios: parent history (11 fork points: never connected, pooled after read / write / rollback, disconnected, session begun without '
         'statement, session begun with pooled connection, live read-only session, live session after an earlier commit, nested live session, open write '
-        'transaction) x child programs (new sessions with reads and writes, continuing the inherited session, rollback) x parent continuation; '
+        'transaction) x child programs (new sessions with reads and writes, continuing the inherited session, rollback, a first connect attempt that fails '
+        '- injected at the DB-API connect - followed by a retry) x parent continuation; '
         'non-trivial = the child touched a connection or the pool parked one; distinct = distinct (before, child, after)')
 
-OPMAP = {'begin': 'OBegin', 'query': 'OQuery', 'write': 'OQuery', 'end_commit': 'OEnd', 'end_rollback': 'OEnd', 'disconnect': 'ODisconnect'}
+OPMAP = {'begin': 'OBegin', 'query': 'OQuery', 'query_fail': 'OQueryFail', 'write': 'OQuery', 'end_commit': 'OEnd', 'end_rollback': 'OEnd', 'disconnect': 'ODisconnect'}
 
 BEFORES = [
     ('never-connected', []),
@@ -82,6 +83,18 @@ def scenarios(ctx, deep=False):
         for ch in childs:
             for af in afters:
                 out.append({'point': name, 'before': before, 'child': ch, 'after': af})
+        # the child's first connect attempt fails (file briefly missing, server refusing): it tries again, in the same and in a new session
+        if d == 0 or name in ('session-begun-no-statement', 'session-begun-connection-pooled'):
+            opening = ['begin'] if d == 0 else []
+            fchilds = [opening + ['query_fail', 'query', 'end_commit', 'begin', 'query', 'end_commit'],
+                       opening + ['query_fail', 'end_commit', 'begin', 'write', 'end_commit']]
+            if deep or ctx.thorough: fchilds.append(opening + ['query_fail', 'query_fail', 'query', 'query_fail', 'end_commit'])
+            for ch in fchilds:
+                out.append({'point': name, 'before': before, 'child': ch, 'after': afters[0]})
+            # the parent's own connect fails after the fork (no fork involved in the failure): it must recover with its own connection
+            if name in ('never-connected', 'disconnected', 'pooled-after-read'):
+                out.append({'point': name, 'before': before, 'child': ['begin', 'query', 'end_commit'],
+                            'after': ['begin', 'query_fail', 'query', 'end_commit']})
     return out
 
 
@@ -272,7 +285,8 @@ def oracle(sc, r):
             last_q = [o for o in r['after'] if o['op'] == 'query' and isinstance(o['result'], list)]
             if last_q and not set(childc) <= set(last_q[-1]['result']):
                 out.append(('fork-at-%s:parent-does-not-see-child-commit' % point, 'parent sees %r, child had committed %r' % (last_q[-1]['result'], childc)))
-    excs = [o for o in ch['ops'] + r['after'] if isinstance(o['result'], str) and o['result'].startswith('EXC')]
+    excs = [o for o in ch['ops'] + r['after'] if isinstance(o['result'], str) and o['result'].startswith('EXC')
+            and not (o['op'] == 'query_fail' and o['result'] == 'EXC:OperationalError')]
     if excs: out.append(('fork-at-%s:operation-raised' % point, '%s raised %s' % (excs[0]['op'], excs[0]['result'])))
     return out
 
